@@ -137,6 +137,30 @@ def explore(run, tier):
             cases.append(dict(base, data=data[:-n].hex(), mut='truncate'))
             cases.append(dict(base, data=(data + bytes(rng.getrandbits(8) for _ in range(n))).hex(), mut='extend'))
             cases.append(dict(base, data=(data + ' '.encode(codec) * n).hex(), mut='extend'))
+    # LARGE messages: k of the eleven 3-digit-prefixed elements at (or near) their full 999 bytes — a message is as long as
+    # its elements are (the 6000-byte limit belongs to the record layer of IPM files, not to the message format)
+    lll = sorted(int(k) for k, fc in pkg.items() if fc['field_type'] == 'LLLVAR')
+    for ci, codec in enumerate(['latin_1', 'cp500', 'cp037']):
+        for k in (5, 6, 7, len(lll)):
+            for full in (999, 990):
+                m = {'MTI': '1240', 'DE2': '5' * 16}
+                for b in lll[:k]:
+                    proc = pkg[str(b)].get('field_processor')
+                    if proc == 'PDS':
+                        m[f'DE{b}'] = iu.pds_text([(b, iu.text(rng, codec, full - 14 - 500)), (b + 1000, iu.text(rng, codec, 500))])
+                    elif proc == 'ICC':
+                        v = b''
+                        while len(v) + 102 <= full:
+                            v += b'\x9f\x10\x63' + bytes(rng.getrandbits(8) for _ in range(99))
+                        m[f'DE{b}'] = v
+                    else:
+                        m[f'DE{b}'] = iu.text(rng, codec, full)
+                try:
+                    data = iso8583.dumps(dict(m), encoding=codec, iso_config=pkg, hex_bitmap=bool((k + ci) % 2))
+                except Exception:  # noqa
+                    continue
+                cases.append({'cfg': 'pkg', 'codec': codec, 'hex': (k + ci) % 2, 'data': data.hex(), 'mut': 'valid'})
+                cases.append({'cfg': 'pkg', 'codec': codec, 'hex': (k + ci) % 2, 'data': data[:-1].hex(), 'mut': 'truncate'})
     bm = lambda bits: sum(1 << (128 - b) for b in [1] + bits).to_bytes(16, 'big')   # noqa: E731
     for data in [b'1144' + bm([2]) + b'-2' + b'1234', b'1144' + bm([2, 3]) + b'-21234', b'1144' + bm([2, 128]) + b'03123',
                  b'1144' + bm([2, 3]) + b'00123456', b'1144' + bm([2]) + b'00', b'1144' + bm([48]) + b'000',
